@@ -45,6 +45,13 @@ func c06Log(r *rand.Rand, dates []gen.Date, n int) gen.Log {
 	var log gen.Log
 	for i := 0; i < n; i++ {
 		day := gen.Day{Date: dates[r.Intn(len(dates))]}
+		if r.Intn(7) == 0 {
+			// a day with nothing under its heading, the heading with or without its colon: a day all the same,
+			// wherever in the file it stands
+			day.NoColon = r.Intn(2) == 0
+			log = append(log, day)
+			continue
+		}
 		for j := 0; j <= r.Intn(3); j++ {
 			day.Ents = append(day.Ents, gen.Ent{Name: foods[r.Intn(len(foods))], Val: gen.EQty(r)})
 		}
@@ -215,7 +222,8 @@ func runC06(c *core.Ctx) {
 	}
 	kws := map[string]int{"today": 0, "yesterday": -1, "last7": -7, "last30": -30}
 	kwNames := []string{"today", "yesterday", "last7", "last30"}
-	Ts := []gen.Date{{Y: 2021, M: 3, D: 31}, {Y: 2021, M: 3, D: 15}, {Y: 2021, M: 4, D: 5}, {Y: 2021, M: 11, D: 8}, {Y: 2021, M: 3, D: 14}, {Y: 2021, M: 10, D: 4}}
+	// (the first day of the calendar as --today: its instant is the zero value of the time type)
+	Ts := []gen.Date{{Y: 2021, M: 3, D: 31}, {Y: 2021, M: 3, D: 15}, {Y: 1, M: 1, D: 1}, {Y: 2021, M: 4, D: 5}, {Y: 2021, M: 11, D: 8}, {Y: 2021, M: 3, D: 14}, {Y: 2021, M: 10, D: 4}}
 	var T gen.Date
 	var kwDays []gen.Date
 	for li := 0; li < c.N(3, 12); li++ {
@@ -475,7 +483,12 @@ func runC06(c *core.Ctx) {
 			positions = []int{0, 1, 2, 3}
 		}
 		for pi, pos := range positions {
-			decoy := it.today.AddDays(-400 + 800*(pi%2)).Format(it.layout)
+			decoyDay := it.today.AddDays(-400 + 800*(pi%2))
+			if decoyDay.Y < 1 {
+				// no years before 0 (a date text with a minus sign is not a date in any of the layouts)
+				decoyDay = it.today.AddDays(400)
+			}
+			decoy := decoyDay.Format(it.layout)
 			args := placeFlags(pos, it.layout, it.cmd.args, it.bs, it.es, decoy, pre("log.yaml"))
 			zones := it.zones
 			if pos != 0 && len(zones) > 1 {
